@@ -28,6 +28,9 @@ def still_fails(w):
             return True
         r2 = py_parse_obj(unesc(g[2:]), "")
         return r2[0] != "OK" or dump(r2[1], False) != dump(r[1], False)
+    if kind == "bad_location":           # rejected, with exactly this (insufficiently located) message
+        r = py_parse_obj(w["text"], w.get("file", "f.c"))
+        return r[0] == "PE" and r[1] == w["message"]
     if kind == "accepts_invalid":
         return r[0] == "OK"
     raise ValueError("unknown witness kind " + kind)
